@@ -151,6 +151,7 @@ class Config:
         self.opaque_globals = {}   # module-global name -> SV factory (symbolic configuration inputs)
         self.pure_builtins = set()
         self.extern = {}           # dotted external function name -> handler(ex, st, args) -> outcomes
+        self.pure_models = {}      # qualified function name -> handler(ex, st, closure, args) -> outcomes (abstract pure functions)
         self.inline_star_ctors = set()  # classes whose constructor may be inlined with a symbolic *args tuple
         self.summary_result_tags = {}  # summary name -> type tag of its result
         self.class_attr_models = {}  # 'core.Path._CACHE' -> callable(ex, st) -> outcomes (modelled class-level state)
